@@ -232,7 +232,14 @@ fn float3<T: Tier>(rep: &mut Report) {
             // from_arc on arbitrary lengths
             let helper = if af[0].abs() < 0.9 { [1.0, 0.0, 0.0] } else { [0.0, 1.0, 0.0] };
             let perp = unit3(cross_f(af, helper));
-            for (l1, l2) in lens.iter().flat_map(|x| lens.iter().map(move |y| (x, *y))) {
+            // every pair of the four lengths, and lengths that differ by 2^-j (j = 3, 5, ... 29: "equal lengths" decided with
+            // a tolerance), either argument the longer one
+            let mut lpairs: Vec<(f64, f64)> = lens.iter().flat_map(|x| lens.iter().map(move |y| (*x, *y))).collect();
+            for j in (3..=29).step_by(2) {
+                let d = 2f64.powi(-j);
+                lpairs.extend([(1.0, 1.0 + d), (1.0 + d, 1.0), (0.2 * (1.0 + d), 0.2), (3.0, 3.0 * (1.0 + d))]);
+            }
+            for (l1, l2) in lpairs.iter().map(|(x, y)| (x, *y)) {
                 let sc = |v: [T; 3], l: f64| -> Vector3<T> { mk_v3(std::array::from_fn(|j| v[j] * num_traits::cast::<f64, T>(l).unwrap())) };
                 let (src, dst) = (sc(a, *l1), sc(b, l2));
                 for fb in [None, Some(perp)] {
@@ -328,14 +335,20 @@ fn opposite3<T: Tier>(rep: &mut Report) {
             let helper = if af[0].abs() < 0.9 { [1.0, 0.0, 0.0] } else { [0.0, 1.0, 0.0] };
             let perp = unit3(cross_f(af, helper));
             let ua = unit3(af);
-            for (e1, e2) in lens {
-                let sc = |v: [T; 3], e: i32| -> Vector3<T> { mk_v3(v.map(|c| c * num_traits::cast::<f64, T>(2f64.powi(e)).unwrap())) };
-                let (src, dst) = (sc(a, e1), sc(b, e2));
+            // (and lengths that differ by 2^-j, either argument the longer one)
+            let mut lens3: Vec<(i32, i32, f64, f64)> = lens.iter().map(|(x, y)| (*x, *y, 1.0, 1.0)).collect();
+            for j in (3..=23).step_by(4) {
+                let d = 2f64.powi(-j);
+                lens3.extend([(0, 0, 1.0, 1.0 + d), (0, 0, 1.0 + d, 1.0), (1, 1, 1.0, 1.0 - d)]);
+            }
+            for (e1, e2, f1, f2) in lens3 {
+                let sc = |v: [T; 3], e: i32, f: f64| -> Vector3<T> { mk_v3(v.map(|c| c * num_traits::cast::<f64, T>(2f64.powi(e) * f).unwrap())) };
+                let (src, dst) = (sc(a, e1, f1), sc(b, e2, f2));
                 for fb in [None, Some(perp)] {
                     let fbt = fb.map(|p| mk_v3(p.map(|c| num_traits::cast::<f64, T>(c).unwrap())));
                     let q = Quaternion::from_arc(src, dst, fbt);
                     let qv = [q.v.x.f(), q.v.y.f(), q.v.z.f()];
-                    let what = format!("from_arc(2^{e1} a, -2^{e2} a, {})", if fb.is_some() { "Some(axis)" } else { "None" });
+                    let what = format!("from_arc({f1} 2^{e1} a, -{f2} 2^{e2} a, {})", if fb.is_some() { "Some(axis)" } else { "None" });
                     ctx.check((q.magnitude2().f() - 1.0).abs() <= tol, &key("from_arc/opposite/unit"), || format!("{what} = {:?}", q));
                     ctx.check(q.s.f().abs() <= tol, &key("from_arc/opposite/half-turn"), || format!("{what} = {:?}: scalar part is not 0", q));
                     ctx.check(dist(v3(q.rotate_vector(mk_v3(ua.map(|c| num_traits::cast::<f64, T>(c).unwrap())))), ua.map(|c| -c)) <= tol * 2.0, &key("from_arc/opposite/maps-src-to-dst"), || format!("{what} = {:?}", q));
